@@ -100,7 +100,7 @@ def run(ctx, chk):
     chk.rule("C18.R2", "AH=0Ah copies at most the declared capacity and stores min(len, capacity)", floor=2)
     chk.rule("C18.R3", "AH dispatch: driver, services and documentation agree on all 256 values", floor=6)
     chk.rule("C18.R4", "frame: only AL (and the 0Ah buffer) changes", floor=20)
-    chk.rule("C18.R5", "services address memory through the documented registers", floor=4)
+    chk.rule("C18.R5", "services address memory through the documented registers", floor=3)
     chk.rule("C18.R6", "interrupt numbers agree between assembler, interpreter and driver", floor=2)
     chk.assumptions += ["read_line appends at most one line to the buffer and returns its byte count",
                         "register values are arbitrary 16-bit words; stdin content is arbitrary"]
@@ -217,7 +217,13 @@ def run(ctx, chk):
                         chk.violation("C18.R5", unit, f"string-address-uses-{'+'.join(regs_used)}",
                                       f"AH=13h reads the string at an address depending on {regs_used}; it is at ES:BP", f"{where}:{e.line}")
                 if not reads:
-                    chk.violation("C18.R5", unit, "no-string-read", "AH=13h reads no memory", where)
+                    closures = any(s_[0] == "assign" and s_[2][0] == "agg" and isinstance(s_[2][1], dict) and s_[2][1].get("k") == "closure"
+                                   for bb in f["blocks"] for s_ in bb["stmts"])
+                    if closures:
+                        # the bytes may be read inside a closure handed to an iterator adaptor: not followed
+                        chk.undecided_("C18.R5", f"{unit}:string", "memory is read inside a closure (iterator adaptor): address not followed")
+                    else:
+                        chk.violation("C18.R5", unit, "no-string-read", "AH=13h reads no memory", where)
     # int_13 cannot modify the machine at all
     s13 = sigs.get("driver::interrupts::int_13")
     if s13 and s13["inputs"] and s13["inputs"][0].startswith("&") and not s13["inputs"][0].startswith("&mut"):
